@@ -67,6 +67,13 @@ def slotted(  # noqa: C901
                 object.__setattr__(self, slot, value)
 
     def wrap(cls):
+        try:
+            return _wrap(cls)
+        finally:
+            # Also when the decoration fails: the guard is only for re-entrancy.
+            _stack.discard(repr(cls))
+
+    def _wrap(cls):
         key = repr(cls)
         if key in _stack:  # pragma: no cover
             raise TypeError(
@@ -89,7 +96,13 @@ def slotted(  # noqa: C901
 
         cls_dict = {**cls.__dict__}
         # Create only missing slots
-        inherited_slots = set().union(*(getattr(c, "__slots__", ()) for c in cls.mro()))
+        bases = cls.mro()[1:]
+        inherited_slots = set().union(*(getattr(c, "__slots__", ()) for c in bases))
+        # A base without `__slots__` already provides `__dict__` and `__weakref__`.
+        if any(getattr(c, "__dictoffset__", 0) for c in bases):
+            inherited_slots.add("__dict__")
+        if any(getattr(c, "__weakrefoffset__", 0) for c in bases):
+            inherited_slots.add("__weakref__")
 
         field_names = {f.name: ... for f in dataclasses.fields(cls) if f.name}
         if dict:
